@@ -355,6 +355,18 @@ class Body:
                 out.append(d)
         return out
 
+    def provenance(self, o):
+        """like opath but expands named locals through their single defining call"""
+        if o["c"] in ("copy", "move"):
+            self._prov = True
+            try:
+                return self.place_path(o["p"], True)
+            finally:
+                self._prov = False
+        return self.opath(o)
+
+    _prov = False
+
     def local_path(self, l, deep=True, depth=0, seen=None):
         names, _ = self.names
         if l in names and not deep:
@@ -386,7 +398,7 @@ class Body:
                     if l in names and sub.startswith("_") and not sub.startswith("_1.^"):
                         return names[l]
                     return sub
-            elif d[0] == "call" and l not in names:
+            elif d[0] == "call" and (l not in names or self._prov):
                 c = Call(self, d[1], d[3])
                 if c.declared in IDENTITY_CALLS and c.args:
                     a = c.args[0]
@@ -585,7 +597,8 @@ class Program:
             return [p for p in self.addr_taken if p in self.by_stripped]
         if c.callee in self.by_stripped:
             out.append(c.callee)
-        if c.res_kind == "virtual" or c.callee not in self.by_stripped:
+        unresolved = c.fn is not None and c.trait is not None and (c.fn.get("res") is None or c.res_kind == "virtual")
+        if unresolved:
             for imp in self.trait_impls.get(c.declared, []):
                 if imp in self.by_stripped and imp not in out:
                     out.append(imp)
@@ -655,3 +668,367 @@ class Program:
     def const_int(self, path):
         c = self.facts.consts.get(path)
         return None if c is None else c.get("int")
+
+
+# ---------------------------------------------------------------------------
+# tokio::select! awareness and guard computation
+# ---------------------------------------------------------------------------
+class SelectInfo:
+    """One expansion of tokio::select! inside a body.
+
+    Trusted summary of the macro: arm k's future is polled, and arm k's handler
+    runs, only if the `disabled` mask bit k was NOT set by the precondition
+    prologue (`if !cond_k { disabled |= 1 << k }`)."""
+
+    def __init__(self, body, mask_local, init_block):
+        self.body = body
+        self.mask = mask_local
+        self.init_block = init_block
+        self.disable_blocks = {}  # k -> block
+        self.out_switch = None
+        self.arm_target = {}  # k -> handler entry block
+        self.futures = {}  # k -> operand in futures_init tuple
+        self.futures_block = None
+
+
+def _find_selects(body):
+    names, _ = body.names
+    sels = []
+    for l, nm in names.items():
+        if nm != "disabled":
+            continue
+        init = None
+        for d in body.whole_defs(l):
+            if d[0] == "call":
+                init = d[1]
+        if init is None:
+            continue
+        s = SelectInfo(body, l, init)
+        for b, blk in enumerate(body.blocks):
+            shl = {}
+            for st in blk["st"]:
+                if st["k"] != "assign":
+                    continue
+                rv = st["r"]
+                if rv["k"] == "binop" and rv["op"] == "Shl" and rv["a"].get("int") == 1 and rv["b"].get("int") is not None:
+                    shl[st["p"]["l"]] = rv["b"]["int"]
+                if rv["k"] == "binop" and rv["op"] == "BitOr" and st["p"]["l"] == l and not st["p"]["pr"]:
+                    if shl:
+                        s.disable_blocks[list(shl.values())[-1]] = b
+        sels.append(s)
+    # output switches
+    out_switches = []
+    for b in range(body.n):
+        t = body.term(b)
+        if t["k"] != "switch":
+            continue
+        a, _ = body.cond_atom(t["d"])
+        if a[0] == "discr":
+            p = a[3]
+            if not p["pr"] and names.get(p["l"]) == "output":
+                out_switches.append(b)
+    for s in sels:
+        cands = [b for b in out_switches if body.dominates(s.init_block, b)]
+        if cands:
+            s.out_switch = min(cands)
+            t = body.term(s.out_switch)
+            for v, tb in t["targets"]:
+                s.arm_target[v] = tb
+        # futures tuple
+        for b, i, st in body.aggregates():
+            if st["r"].get("ak") == "tuple" and names.get(st["p"]["l"]) == "futures_init" and body.dominates(s.init_block, b):
+                if s.futures_block is None or b < s.futures_block:
+                    s.futures_block = b
+                    s.futures = {k: o for k, o in enumerate(st["r"]["ops"])}
+    return [s for s in sels if s.out_switch is not None]
+
+
+class Guard:
+    __slots__ = ("s", "label", "atom", "pol", "truth", "via_select", "avoid")
+
+    def __init__(self, body, s, label, via_select=None, avoid=()):
+        self.s = s
+        self.label = label
+        self.atom, self.pol = body.switch_atom(s)
+        t = body.term(s)
+        # truth: value of the switch discriminant on this edge (bool switches)
+        self.truth = None
+        vals = [v for v, _ in t["targets"]]
+        if t["dty"] == "bool":
+            if label == 0:
+                raw = False
+            elif label == 1:
+                raw = True
+            else:
+                raw = (0 in vals)  # otherwise-edge of a [0,..] switch = true
+            self.truth = raw if self.pol else (not raw)
+        self.via_select = via_select
+        self.avoid = tuple(avoid)
+
+    def is_call(self, rx, recv=None):
+        if self.atom[0] != "call":
+            return False
+        c = self.atom[1]
+        if not c.matches(rx):
+            return False
+        if recv is not None and c.recv() != recv:
+            return False
+        return True
+
+
+def _body_selects(self):
+    if getattr(self, "_selects", None) is None:
+        self._selects = _find_selects(self)
+    return self._selects
+
+
+def _bwd_reachable(self, targets, avoid_blocks=(), avoid_edges=()):
+    avoid_blocks = set(avoid_blocks)
+    avoid_edges = set(avoid_edges)
+    seen = set(t for t in targets if t not in avoid_blocks)
+    dq = deque(seen)
+    while dq:
+        b = dq.popleft()
+        for p in self.pred[b]:
+            if p in seen or p in avoid_blocks:
+                continue
+            # at least one non-avoided edge p->b
+            ok = False
+            for tb, lab in self.edges(p):
+                if tb == b and (p, lab) not in avoid_edges:
+                    ok = True
+                    break
+            if ok:
+                seen.add(p)
+                dq.append(p)
+    return seen
+
+
+def _edge_guards(self, b, avoid_blocks=(), upto=None):
+    """switch edges that every path entry->b (avoiding avoid_blocks) takes"""
+    out = []
+    avoid_blocks = set(avoid_blocks)
+    base = self.reachable([0], avoid_blocks=avoid_blocks)
+    if b not in base:
+        return out
+    # candidates: switch blocks in `base` that can reach b
+    back = self.bwd_reachable([b], avoid_blocks=avoid_blocks)
+    for s in sorted(base & back):
+        if s == b:
+            continue
+        t = self.term(s)
+        if t["k"] != "switch":
+            continue
+        labels = [v for v, _ in t["targets"]] + ["otherwise"]
+        for lab in labels:
+            r = self.reachable([0], avoid_blocks=avoid_blocks, avoid_edges=[(s, lab)])
+            if b not in r:
+                out.append((s, lab))
+    return out
+
+
+def _guards(self, b, select_aware=True):
+    """Guard objects for block b: dominating switch edges, plus (trusted select!
+    summary) the precondition edges of every select arm whose handler contains b."""
+    gs = [Guard(self, s, lab) for s, lab in self.edge_guards(b)]
+    if select_aware:
+        for sel in self.selects:
+            for k, tb in sel.arm_target.items():
+                if k in sel.disable_blocks and self.edge_dominates(sel.out_switch, k, b):
+                    gs.extend(self.select_arm_guards(sel, k))
+    return gs
+
+
+def _select_arm_guards(self, sel, k):
+    d = sel.disable_blocks.get(k)
+    if d is None:
+        return []
+    out = []
+    seen = set()
+    for s, lab in self.edge_guards(sel.out_switch, avoid_blocks=[d]):
+        # only the edges that are not guards anyway (precondition prologue)
+        if (s, lab) in seen:
+            continue
+        seen.add((s, lab))
+        out.append(Guard(self, s, lab, via_select=(sel, k), avoid=[d]))
+    return out
+
+
+def _between(self, guard, b):
+    """blocks on some path from the guard edge to b that does not re-evaluate
+    the guard (and, for select-arm guards, does not disable the arm)"""
+    tgt = [tb for tb, lab in self.edges(guard.s) if lab == guard.label]
+    avoid = set(guard.avoid) | {guard.s}
+    f = self.reachable(tgt, avoid_blocks=avoid)
+    r = self.bwd_reachable([b], avoid_blocks=avoid)
+    return f & r
+
+
+Body.selects = property(_body_selects)
+Body.bwd_reachable = _bwd_reachable
+Body.edge_guards = _edge_guards
+Body.guards = _guards
+Body.select_arm_guards = _select_arm_guards
+Body.between = _between
+
+
+# ---------------------------------------------------------------------------
+# .await points
+# ---------------------------------------------------------------------------
+class Await:
+    __slots__ = ("body", "into_future_blk", "poll_blk", "yield_blk", "ready_blk", "awaitee", "src", "sp")
+
+
+def _awaits(self):
+    """list of Await: one per `.await` in this coroutine body"""
+    if getattr(self, "_awaits", None) is not None:
+        return self._awaits
+    out = []
+    for c in self.calls:
+        if c.declared != "std::future::IntoFuture::into_future" or not (c.exp or "").startswith("desugar:Await"):
+            continue
+        a = Await()
+        a.body = self
+        a.into_future_blk = c.blk
+        a.sp = c.sp
+        a.src = c  # the into_future call; its arg is the awaited future
+        a.poll_blk = a.yield_blk = a.ready_blk = None
+        # follow forward to the poll call whose span equals this await's span
+        for c2 in self.calls:
+            if c2.declared in ("std::future::Future::poll", "futures::Future::poll") and c2.sp == c.sp and (c2.exp or "").startswith("desugar:Await"):
+                a.poll_blk = c2.blk
+                sw = c2.target
+                if sw is not None and self.term(sw)["k"] == "switch":
+                    for v, tb in self.term(sw)["targets"]:
+                        if v == 0:
+                            a.ready_blk = tb
+                        elif v == 1:
+                            # pending -> ... -> yield
+                            cur = tb
+                            for _ in range(4):
+                                if self.term(cur)["k"] == "yield":
+                                    a.yield_blk = cur
+                                    break
+                                nx = self.succ[cur]
+                                if len(nx) != 1:
+                                    break
+                                cur = nx[0]
+                break
+        out.append(a)
+    self._awaits = out
+    return out
+
+
+def _awaited_call(self, aw):
+    """the Call that produced the awaited future (or None)"""
+    o = aw.src.args[0]
+    if o["c"] not in ("copy", "move") or o["p"]["pr"]:
+        return None
+    l = o["p"]["l"]
+    for _ in range(8):
+        ds = self.whole_defs(l)
+        if len(ds) != 1:
+            return None
+        d = ds[0]
+        if d[0] == "call":
+            return Call(self, d[1], d[3])
+        if d[0] == "assign" and d[3]["r"]["k"] == "use" and d[3]["r"]["o"]["c"] in ("copy", "move") and not d[3]["r"]["o"]["p"]["pr"]:
+            l = d[3]["r"]["o"]["p"]["l"]
+            continue
+        return None
+    return None
+
+
+Body.awaits = _awaits
+Body.awaited_call = _awaited_call
+
+
+# ---------------------------------------------------------------------------
+# post-dominators, value origin
+# ---------------------------------------------------------------------------
+def _ipdom(self):
+    if getattr(self, "_ipdom_c", None) is not None:
+        return self._ipdom_c
+    n = self.n
+    EXIT = n
+    succ = [list(s) for s in self.succ] + [[]]
+    live = self.live_blocks()
+    for b in live:
+        if not succ[b]:
+            succ[b] = [EXIT]
+    pred = [[] for _ in range(n + 1)]
+    for b in live:
+        for s in succ[b]:
+            pred[s].append(b)
+    # reverse graph: edges s -> b for b in pred[s]; entry = EXIT
+    order = []
+    seen = {EXIT}
+    stack = [(EXIT, iter(pred[EXIT]))]
+    while stack:
+        b, it = stack[-1]
+        adv = False
+        for s in it:
+            if s not in seen:
+                seen.add(s)
+                stack.append((s, iter(pred[s])))
+                adv = True
+                break
+        if not adv:
+            order.append(b)
+            stack.pop()
+    rpo = list(reversed(order))
+    idx = {b: i for i, b in enumerate(rpo)}
+    idom = {EXIT: EXIT}
+    changed = True
+    while changed:
+        changed = False
+        for b in rpo[1:]:
+            new = None
+            for p in succ[b]:
+                if p in idom:
+                    if new is None:
+                        new = p
+                    else:
+                        f1, f2 = p, new
+                        while f1 != f2:
+                            while idx[f1] > idx[f2]:
+                                f1 = idom[f1]
+                            while idx[f2] > idx[f1]:
+                                f2 = idom[f2]
+                        new = f1
+            if new is not None and idom.get(b) != new:
+                idom[b] = new
+                changed = True
+    self._ipdom_c = idom
+    return idom
+
+
+def _value_origin(self, o, depth=0):
+    """Follow by-value moves/copies (never references) back to where the value
+    came from: ('place', place_json) for a projection / argument / multi-def local,
+    ('call', Call), ('const', operand), ('agg', stmt), ('other', rvalue)."""
+    if o["c"] == "const":
+        return ("const", o)
+    if o["c"] not in ("copy", "move"):
+        return ("other", o)
+    p = o["p"]
+    if p["pr"] or depth > 16:
+        return ("place", p)
+    ds = self.whole_defs(p["l"])
+    if len(ds) != 1:
+        return ("place", p)
+    d = ds[0]
+    if d[0] == "call":
+        return ("call", Call(self, d[1], d[3]))
+    if d[0] == "assign":
+        rv = d[3]["r"]
+        if rv["k"] == "use":
+            return self.value_origin(rv["o"], depth + 1)
+        if rv["k"] == "agg":
+            return ("agg", d[3])
+        return ("other", rv)
+    return ("place", p)
+
+
+Body.ipdom = property(_ipdom)
+Body.value_origin = _value_origin
